@@ -37,6 +37,9 @@ type Action struct {
 	// set): "550 5.1.1", or "451-4.7.1" followed by the remaining lines of Text. A single-line
 	// Text is dropped altogether.
 	Bare bool `json:"bare,omitempty"`
+	// DelayMs: the reply (whatever it is) goes out this much later than usual; the server is
+	// slow, not dead.
+	DelayMs int `json:"delayMs,omitempty"`
 }
 
 // Rule attaches an Action to the Nth occurrence (1-based; 0 = every) of a command on a connection.
@@ -424,6 +427,7 @@ func (s *Session) reply(cmdSeq int, verb string, nth int, act Action, defCode in
 			delay = 1
 		}
 	}
+	delay += int64(act.DelayMs) * int64(time.Millisecond)
 	s.srv.K.Sleep(time.Duration(delay))
 	if !s.TLS && s.pipe.Server.Pending() > 0 && verb != "EOD" && verb != "GREET" {
 		s.obs("pipelined-before-reply:"+verb, "")
